@@ -120,7 +120,7 @@ static void bump(const char *name) {
 
 static void emit(const char *fmt, ...) {
   char line[2048]; va_list ap; va_start(ap, fmt); vsnprintf(line, sizeof line, fmt, ap); va_end(ap);
-  fprintf(fops, "%s\n", line);
+  fprintf(fops, "%s\n", line); fflush(fops);
   exec_line(line);
 }
 
